@@ -4,8 +4,11 @@
 package checks
 
 import (
+	"context"
 	"encoding/json"
+	"os/exec"
 	"sort"
+	"time"
 
 	"verif/internal/ev"
 )
@@ -41,4 +44,12 @@ func IDs() []string {
 	}
 	sort.Strings(ids)
 	return ids
+}
+
+// shardCommand runs a worker process with a generous time limit, so that a tree under test that
+// makes a worker spin forever ends as a harness failure instead of hanging the check.
+func shardCommand(bin string, args ...string) *exec.Cmd {
+	ctx, cancel := context.WithTimeout(context.Background(), 50*time.Minute)
+	_ = cancel // the process ends with the check
+	return exec.CommandContext(ctx, bin, args...)
 }
